@@ -12,12 +12,32 @@ Two kinds of cases.
   pseudo log-likelihood terms and convergence test, plugged into `prinz_loop` of Model/Prinz.v and run over
   rationals (ln to 2^-64), must stop after the same N sweeps (py: ln, pyx: log10), and the returned (T, pi)
   must equal the N-sweep model to 1e-9.
+* "mono": the real functions are run from the same counts with max_iter = 1, 2, .., K (a run that warned executed
+  exactly max_iter sweeps, one that did not has stopped and later runs return the same model); the
+  log-likelihood sum_kl c_kl ln T_kl of the returned models must be non-decreasing along the sweeps and never
+  below that of the transpose estimate (C + C^T) / rowsum (Props/C12.v c12_iteration_monotone,
+  c12_returned_model_loglik_ge_transpose).  Differences are evaluated as sum c_kl * log1p(T'_kl / T_kl - 1)
+  with the ratio of the two doubles formed exactly (Fractions), slack 1e-9 * sum(C); the K-sweep model is
+  also compared with the translated formulas as in "sweep".
 * "cert": builders.mle (dense and sparse containers), _prinz_mle_py and _prinz_mle (compiled) run to
   convergence; the returned T, pi are handed to Coq as exact rationals and the certificate checker
   of Model/Prinz.v evaluates stochasticity, detailed balance (1e-9) and the Prinz self-consistency
   residual (1e-6 relative to c_i + c_j; skipped only when the code said it did not converge);
   py vs pyx within 1e-6.  Oracle (Python): the same statements on Fractions, plus log-likelihood
   >= that of the transpose estimate and of random / perturbed reversible matrices on the same support.
+* "dtype" (round 3s): the same counts held in a narrow dtype (int8/uint8/int16/uint16/int32/uint32, float16 dense
+  only, float32; values close to the dtype's maximum, so that c_ij + c_ji and the row sums do not fit) and in
+  float64 / int64: builders.mle (dense and every sparse container of the rule), _prinz_mle_py run to convergence
+  and with max_iter = k must return a model and the same one (1e-9) as from the float64 counts; the compiled entry
+  point only accepts float64 (ValueError from the typed signature otherwise; tagged, not demanded).
+* "scale" (round 3s): T(s C) = T(C) for s = 2^e (e in -10 -20 -34 -40 20 and one of -100 -70 40 60 100; scaling
+  by a power of two is exact in doubles and every product / quotient / root of the iteration commutes with it; only
+  numpy's scalar b**2 in the Python code is not always correctly rounded, so runs of exactly k sweeps agree to
+  ~1e-16, demanded: 1e-9).  Runs with max_iter = k that warned (= exactly k sweeps) are compared between scales and,
+  in Coq, with the k-sweep model of the *unscaled* counts; converged runs of mle / py / pyx must satisfy the
+  certificate relative to the scaled counts and agree with the unscaled ones to 1e-4 (the stopping rule is an
+  absolute test on a pseudo-likelihood that is not scale-free; observed <= 5.5e-7).  Counts scaled UP by 2^40 and
+  more stop early (float resolution of the likelihood sum): known finding self-consistency-huge-counts.
 """
 import os, sys, math, random, warnings
 from fractions import Fraction as F
@@ -38,15 +58,21 @@ RULE = ("strongly connected count matrices, n = 1..7 (sweep cases n <= 5): rando
         "branch), counts that are small integers, multiples of 1/8, arbitrary doubles, or spread over 1..10^4; dense "
         "ndarray and csr/coo/lil containers for builders.mle; plus matrices with an all-zero row (rejected). "
         "stop cases: n = 2..4, the sweep count of both real functions measured by probing max_iter. "
+        "mono cases: n = 2..5, both real functions run with max_iter = 1..K (K = 4..8) from the same counts, likelihood ordering along the sweeps. "
+        "dtype cases: n = 2..4, counts close to the maximum of int8/uint8/int16/uint16/int32/uint32/float16/float32 (pair sums and row sums exceed it), the same numbers as float64/int64 must give the same model through mle (all containers), _prinz_mle_py (converged and k sweeps). "
+        "scale cases: n = 2..4, counts multiplied by 2^e, e in {-10,-20,-34,-40,20} and one of {-100,-70,40,60,100}: k-sweep results equal between scales (1e-9) and equal to the model of the unscaled counts, converged results certified relative to the scaled counts. "
+        "leaf cases: every chain / star / leaf-on-dense-block pattern for n = 2..5 with and without self counts on the other states, integer and real counts, as sweep and cert cases (both implementations). "
         "non-trivial := n >= 3, not symmetric, a model was returned and at least one sweep changed X (stop cases: at least 2 sweeps)")
 TRUSTED = ["translator/tr_prinz.py (array-element renaming, loop-shape recognition; the logl terms and the convergence test are translated, `logl = 0` / `oldlogl = logl` / `break` / the warning condition n_iter == max_iter - 1 are recognised as the shape prinz_loop implements; np.log -> klog, C log10 -> klog10 = ln/ln 10)",
            "modelled not verified: IEEE rounding (comparison at 1e-9 / 1e-6), numpy sum/division broadcasting, scipy sparse <-> dense conversion; the stopping rule is modelled (prinz_loop) and compared on stop cases whose iteration needs <= 30 sweeps, the executable ln on Q is a 2^-64 approximation (Model/Prinz.v qlog, not proved)",
            "the executable Q instance of the model rounds quotients and square roots down to multiples of 2^-80 (sums, differences, products exact)"]
 ASSUMPTIONS = ["count matrices are non-negative with a strongly connected transition graph (after ergodic trimming); "
-               "theorems are about exact real arithmetic; convergence of the iteration and global optimality for n >= 3 are NOT proved "
+               "theorems are about exact real arithmetic; convergence of the matrices X_k and global optimality for n >= 3 are NOT proved "
                "(proved: Prinz equations at every state a sweep leaves unchanged, vanishing partial derivatives and strict "
-               "coordinate-wise maximality of the full log-likelihood there, global optimality for two states; "
-               "observed per input: likelihood >= transpose estimate and >= sampled reversible competitors)"]
+               "coordinate-wise maximality of the full log-likelihood there, global optimality for two states; round 3: every "
+               "update and every sweep is monotone in the log-likelihood and strictly increasing unless nothing changes, the "
+               "returned model is at least as likely as the transpose estimate, the likelihood values along the iteration converge; "
+               "observed per input: likelihood non-decreasing sweep by sweep, >= transpose estimate and >= sampled reversible competitors)"]
 SHARD = 20
 P = 80
 TOL_SWEEP = F(1, 10 ** 9)
@@ -140,12 +166,95 @@ def _matrix(rng, n, shape, style):
             M[0][i] = _val(rng, style)
             M[i][0] = _val(rng, style)
         return M
+    if shape == "leaf-block":     # dense block with one or two states hanging off it by a single pair, no self count
+        M = Z
+        L = 1 if n <= 3 or rng.random() < 0.6 else 2
+        m = n - L
+        for i in range(m):
+            for j in range(m):
+                if i != j or rng.random() < 0.7:
+                    M[i][j] = _val(rng, style)
+        if m == 1:
+            M[0][0] = _val(rng, style) if rng.random() < 0.7 else F(0)
+        for l in range(m, n):
+            b = rng.randrange(m)
+            M[l][b] = _val(rng, style)
+            M[b][l] = _val(rng, style)
+        if rng.random() < 0.5:    # leaf states first / in the middle: the pair (i, j) is visited in both orders
+            perm = list(range(n))
+            rng.shuffle(perm)
+            M = [[M[perm[i]][perm[j]] for j in range(n)] for i in range(n)]
+        return M
     if shape == "two-empty-diag":
         return [[F(0), _val(rng, style)], [_val(rng, style), F(0)]]
     raise ValueError(shape)
 
 
-SHAPES = ["sparse", "mid", "full", "symmetric", "ring", "asym", "chain", "chain-self", "star"]
+def _leaf_family(rng):
+    """systematic leaf-state matrices: chains, stars and a leaf on a dense block, n = 2..5, the non-leaf states with
+    and without self counts, counts integer and real; the leaf states never have a self count"""
+    out = []
+    for n in range(2, 6):
+        for pattern in ("chain", "star", "leaf-block"):
+            for selfc in (False, True):
+                for style in ("int", "float"):
+                    if pattern == "leaf-block":
+                        M = _matrix(rng, n, "leaf-block", style)
+                        if not selfc:
+                            for i in range(n):
+                                M[i][i] = F(0)
+                        if n == 2 and M[0][0] == 0 and M[1][1] == 0 and selfc:
+                            M[0][0] = _val(rng, style)
+                    else:
+                        M = _matrix(rng, n, pattern, style)
+                        if selfc:
+                            deg = [sum(1 for j in range(n) if j != i and M[i][j] > 0) for i in range(n)]
+                            inner = [i for i in range(n) if deg[i] >= 2] or [0]
+                            for i in inner:
+                                M[i][i] = _val(rng, style)
+                    out.append((pattern, style, M))
+    return out
+
+
+# narrow dtypes: name -> largest value; float16 / float32 counts are k * 2^e (exactly representable)
+INT_DTYPES = {"int8": 2 ** 7 - 1, "uint8": 2 ** 8 - 1, "int16": 2 ** 15 - 1, "uint16": 2 ** 16 - 1,
+              "int32": 2 ** 31 - 1, "uint32": 2 ** 32 - 1}
+DTYPES = ["int8", "int8", "int16", "int16", "int32", "uint8", "uint16", "uint32", "float16", "float32", "float32-eighth"]
+
+
+def _narrow_val(rng, dt):
+    if dt in INT_DTYPES:
+        m = INT_DTYPES[dt]
+        u = rng.random()
+        if u < 0.15:
+            return F(m)
+        if u < 0.8:
+            return F(rng.randrange(m // 2 + 1, m + 1))      # any two of these do not fit together
+        return F(rng.randrange(max(1, m // 10), m // 2 + 1))
+    if dt == "float16":                                      # 32768 .. 65504, spacing 32
+        return F(rng.randrange(1024, 2048) * 32)
+    if dt == "float32":                                      # up to the largest float32, (2^24 - 1) * 2^104
+        return F(rng.randrange(2 ** 21, 2 ** 24) * 2 ** 104)
+    if dt == "float32-eighth":
+        return F(rng.randrange(1, 80), 8)
+    raise ValueError(dt)
+
+
+def _narrow_matrix(rng, n, shape, dt):
+    M = _matrix(rng, n, shape, "int")
+    return [[_narrow_val(rng, dt) if x > 0 else F(0) for x in row] for row in M]
+
+
+SCALE_EXPS = [-10, -20, -34, -40, 20]
+SCALE_FAR = [-100, -70, -60]
+# counts of 2^40 and more: the convergence test compares float sums of magnitude ~ counts with an absolute 1e-10, so the
+# iteration stops as soon as the change is below one ulp of that sum: the returned model is visibly unconverged and no
+# warning is given (known finding, key self-consistency-huge-counts); everything else is still demanded there
+SCALE_HUGE = [40, 60, 100]
+HUGE_DTYPES = ("int32", "uint32", "float32")   # counts >= 2^28: self-consistency to 1e-6 is not reached (up to 6e-6 seen at 2^30)
+
+
+SHAPES = ["sparse", "mid", "full", "symmetric", "ring", "asym", "chain", "chain-self", "star", "leaf-block"]
 STYLES = ["int", "int", "eighth", "float", "spread"]
 CONTAINERS = ["ndarray", "ndarray", "csr_matrix", "coo_matrix", "lil_matrix", "csr_array"]
 
@@ -167,6 +276,7 @@ def generate(rng, tier):
         cases.append({"kind": "cert", "C": _enc([[F(x) for x in r] for r in M]), "container": "ndarray", "shape": "fixed",
                       "style": "int", "seed": 1})
         cases.append({"kind": "sweep", "C": _enc([[F(x) for x in r] for r in M]), "k": 2, "shape": "fixed", "style": "int"})
+        cases.append({"kind": "mono", "C": _enc([[F(x) for x in r] for r in M]), "K": 5, "shape": "fixed", "style": "int"})
     n_sweep = 300 if quick else 3000
     for t in range(n_sweep):
         shape = SHAPES[t % len(SHAPES)] if rng.random() < 0.9 else "two-empty-diag"
@@ -185,6 +295,15 @@ def generate(rng, tier):
         n = rng.choice([2, 3, 3, 4])
         M = _matrix(rng, n, shape, style)
         cases.append({"kind": "stop", "C": _enc(M), "shape": shape, "style": style})
+    n_mono = 45 if quick else 450
+    for t in range(n_mono):
+        shape = SHAPES[t % len(SHAPES)] if rng.random() < 0.93 else "two-empty-diag"
+        style = rng.choice(["int", "int", "eighth", "float"])
+        n = 2 if shape == "two-empty-diag" else rng.choice([2, 3, 3, 4, 4, 5])
+        M = _matrix(rng, n, shape, style)
+        # tol0: run with tol = 0.0, so that every run executes exactly max_iter sweeps unless logl repeats exactly
+        cases.append({"kind": "mono", "C": _enc(M), "K": rng.choice([4, 5, 6, 8]) if n <= 4 else 4, "shape": shape, "style": style,
+                      "tol0": rng.random() < 0.5})
     n_cert = 260 if quick else 2600
     for t in range(n_cert):
         shape = SHAPES[t % len(SHAPES)] if rng.random() < 0.93 else "two-empty-diag"
@@ -197,6 +316,37 @@ def generate(rng, tier):
         M = _matrix(rng, n, shape, style)
         cases.append({"kind": "cert", "C": _enc(M), "container": rng.choice(CONTAINERS), "shape": shape, "style": style,
                       "seed": rng.randrange(10 ** 6)})
+    # ---- round 3s streams
+    # leaf states (one neighbour, no self count), systematically, for both implementations
+    for rep in range(1 if quick else 6):
+        for pattern, style, M in _leaf_family(rng):
+            cases.append({"kind": "sweep", "C": _enc(M), "k": rng.choice([1, 2, 3]), "shape": "leaf-" + pattern, "style": style})
+            cases.append({"kind": "cert", "C": _enc(M), "container": rng.choice(CONTAINERS), "shape": "leaf-" + pattern,
+                          "style": style, "seed": rng.randrange(10 ** 6)})
+    # narrow dtypes
+    for M, dt in (([[0, 100, 3], [90, 100, 0], [0, 5, 120]], "int8"), ([[0, 30000], [30000, 7]], "int16"),
+                  ([[200, 200], [100, 0]], "uint8")):
+        cases.append({"kind": "dtype", "C": _enc([[F(x) for x in r] for r in M]), "dtype": dt, "container": "ndarray", "k": 2,
+                      "shape": "fixed", "style": "narrow"})
+    n_dtype = 66 if quick else 660
+    for t in range(n_dtype):
+        dt = DTYPES[t % len(DTYPES)]
+        shape = rng.choice(SHAPES)
+        n = rng.choice([2, 3, 3, 4])
+        M = _narrow_matrix(rng, n, shape, dt)
+        cont = CONTAINERS[(t // len(DTYPES)) % len(CONTAINERS)] if dt != "float16" else "ndarray"
+        cases.append({"kind": "dtype", "C": _enc(M), "dtype": dt, "container": cont, "k": rng.choice([1, 2, 3]),
+                      "shape": shape, "style": "narrow"})
+    # scale invariance
+    n_scale = 40 if quick else 300
+    for t in range(n_scale):
+        shape = SHAPES[t % len(SHAPES)] if rng.random() < 0.93 else "two-empty-diag"
+        style = rng.choice(["int", "int", "eighth", "float"])
+        n = 2 if shape == "two-empty-diag" else rng.choice([2, 3, 3, 4])
+        M = _matrix(rng, n, shape, style)
+        cases.append({"kind": "scale", "C": _enc(M), "exps": SCALE_EXPS + [rng.choice(SCALE_FAR), rng.choice(SCALE_HUGE)],
+                      "k": rng.choice([1, 2, 3]),
+                      "container": rng.choice(CONTAINERS), "shape": shape, "style": style})
     return cases
 
 
@@ -281,11 +431,75 @@ def _run_stop(c, A):
     return r
 
 
+def _mle_fn(X):
+    from enspara.msm import builders
+    _, T, pi = builders.mle(X)
+    return T, pi
+
+
+def _contain(A, container):
+    import scipy.sparse
+    return A.copy() if container == "ndarray" else getattr(scipy.sparse, container)(A)
+
+
+def _np_dtype(dt):
+    return "float32" if dt == "float32-eighth" else dt
+
+
+def _run_dtype(c, A):
+    """A: the counts as float64.  ref_*: from float64 (mle_wide: int64 when integral); others from the narrow dtype."""
+    from enspara.msm import builders
+    py, pyx = builders._prinz_mle_py, builders._prinz_mle
+    An = A.astype(_np_dtype(c["dtype"]))
+    if not np.array_equal(An.astype(np.float64), A):
+        raise ValueError("harness: counts are not representable in %s" % c["dtype"])
+    wide = A.astype(np.int64) if (c["dtype"] in INT_DTYPES) else A.copy()
+    k = c["k"]
+    B = _contain(An, c["container"])
+    keep = B.copy()
+    r = {"ref_py": _call(py, A.copy()), "ref_pyx": _call(pyx, A.copy()), "ref_py_k": _call(py, A.copy(), max_iter=k),
+         "mle_wide": _call(_mle_fn, _contain(wide, c["container"])),
+         "mle": _call(_mle_fn, B), "py": _call(py, An.copy()), "py_k": _call(py, An.copy(), max_iter=k),
+         "pyx": _call(pyx, An.copy())}
+    r["input_unchanged"] = bool((abs(keep.astype(np.float64) - B.astype(np.float64))).sum() == 0) and B.dtype == keep.dtype
+    with np.errstate(all="ignore"):
+        S = (An + An.T)
+        r["pair_sum_wraps"] = bool(np.any(S.astype(np.float64) != A + A.T))
+        r["wrapped_rowsum_nonpositive"] = bool(np.any(~(S.astype(np.float64).sum(axis=1) > 0)))
+        r["rowsum_exceeds_dtype"] = bool(np.any(An.sum(axis=1, dtype=An.dtype).astype(np.float64) != A.sum(axis=1)))
+    return r
+
+
+def _run_scale(c, A):
+    from enspara.msm import builders
+    py, pyx = builders._prinz_mle_py, builders._prinz_mle
+    k = c["k"]
+
+    def runs(X):
+        return {"py_k": _call(py, X.copy(), max_iter=k), "pyx_k": _call(pyx, X.copy(), max_iter=k),
+                "py": _call(py, X.copy()), "pyx": _call(pyx, X.copy()), "mle": _call(_mle_fn, _contain(X, c["container"]))}
+    r = {"base": runs(A), "scaled": {}}
+    for e in c["exps"]:
+        X = A * (2.0 ** e)
+        if not np.array_equal(X * (2.0 ** -e), A):
+            raise ValueError("harness: scaling by 2^%d is not exact" % e)
+        r["scaled"][str(e)] = runs(X)
+    return r
+
+
 def run_impl(c):
     from enspara.msm import builders
     A, allint = _array(c)
     if c["kind"] == "stop":
         return _run_stop(c, A)
+    if c["kind"] == "dtype":
+        return _run_dtype(c, A)
+    if c["kind"] == "scale":
+        return _run_scale(c, A)
+    if c["kind"] == "mono":
+        kw = {"tol": 0.0} if c.get("tol0") else {}
+        return {impl: [_call(f, A.copy(), max_iter=k, **kw) for k in range(1, c["K"] + 1)]
+                for impl, f in (("py", builders._prinz_mle_py), ("pyx", builders._prinz_mle))}
     if c["kind"] == "sweep":
         return {"py": _call(builders._prinz_mle_py, A.copy(), max_iter=c["k"]),
                 "pyx": _call(builders._prinz_mle, A.copy(), max_iter=c["k"])}
@@ -317,7 +531,7 @@ def _cres(r):
 
 def coq_show(c):
     n = len(c["C"])
-    k = c.get("k", 1)
+    k = c.get("k", c.get("K", 1))
     return "prinz_run (QOps %d) (py_sweep (QOps %d)) %s (mat_fun %s) %s" % (P, P, cn(n), _cmat(c["C"]), cn(k))
 
 
@@ -332,9 +546,43 @@ def _sweep_tol(c):
     return TOL_SWEEP
 
 
+def _scaled(M, e):
+    s = F(2) ** e
+    return [[F(x) * s for x in row] for row in M]
+
+
 def coq_check(c, r):
     n = len(c["C"])
     Cm = _cmat(c["C"])
+    if c["kind"] == "dtype":
+        parts = []
+        ri = r["mle"]
+        if "T" in ri:
+            parts.append("cert_ok %s %s %s %s %s %s" % (cq(TOL1), cq(TOL2), cb(not ri["warn"] and c["dtype"] not in HUGE_DTYPES), Cm,
+                                                      _cmat(ri["T"]), clist(ri["pi"], lambda x: cq(F(x)), "Q")))
+            if "T" in r["ref_py"]:
+                parts.append("result_near %s %s %s" % (cq(TOL_SWEEP), _cres(ri), _cres(r["ref_py"])))
+        rk = r["py_k"]
+        if "T" in rk and rk["warn"]:
+            parts.append("result_near %s (prinz_run (QOps %d) (py_sweep (QOps %d)) %s (mat_fun %s) %s) %s" % (
+                cq(_sweep_tol(c)), P, P, cn(n), Cm, cn(c["k"]), _cres(rk)))
+        return " && ".join("(%s)" % p for p in parts) if parts else None
+    if c["kind"] == "scale":
+        # the k-sweep model of the UNSCALED counts against the k-sweep results on every scale (T and pi are scale free)
+        parts = []
+        for impl, swp in (("py_k", "py_sweep"), ("pyx_k", "pyx_sweep")):
+            rs = [rr[impl] for rr in [r["base"]] + [r["scaled"][str(e)] for e in c["exps"]]
+                  if "T" in rr[impl] and rr[impl]["warn"]]
+            if rs:
+                parts.append("let m := prinz_run (QOps %d) (%s (QOps %d)) %s (mat_fun %s) %s in %s" % (
+                    P, swp, P, cn(n), Cm, cn(c["k"]),
+                    " && ".join("result_near %s m %s" % (cq(_sweep_tol(c)), _cres(ri)) for ri in rs)))
+        for e in c["exps"]:
+            ri = r["scaled"][str(e)]["mle"]
+            if "T" in ri:
+                parts.append("cert_ok %s %s %s %s %s %s" % (cq(TOL1), cq(TOL2), cb(not ri["warn"] and e not in SCALE_HUGE), _cmat(_scaled(c["C"], e)),
+                                                          _cmat(ri["T"]), clist(ri["pi"], lambda x: cq(F(x)), "Q")))
+        return " && ".join("(%s)" % p for p in parts) if parts else None
     if c["kind"] == "stop":
         parts = []
         for impl, run, swp in (("py", "py_run_stop", "py_sweep"), ("pyx", "pyx_run_stop", "pyx_sweep")):
@@ -345,6 +593,17 @@ def coq_check(c, r):
                 run, STOP_P, STOP_P, cn(n), Cm, cq(F(1, 10 ** 10)), cn(ri["N"])))
             parts.append("result_near %s (prinz_run (QOps %d) (%s (QOps %d)) %s (mat_fun %s) %s) %s" % (
                 cq(_sweep_tol(c)), P, swp, P, cn(n), Cm, cn(ri["N"]), _cres(ri)))
+        return " && ".join("(%s)" % p for p in parts) if parts else None
+    if c["kind"] == "mono":
+        parts = []
+        for impl, swp in (("py", "py_sweep"), ("pyx", "pyx_sweep")):
+            runs = r[impl]
+            ks = [k for k, ri in enumerate(runs, 1) if "T" in ri and ri["warn"]]
+            if any("err" in ri for ri in runs) or not ks:
+                continue                 # the oracle reports errors; nothing ran exactly k sweeps
+            k = ks[-1]                   # the longest run known to have executed exactly k sweeps
+            parts.append("result_near %s (prinz_run (QOps %d) (%s (QOps %d)) %s (mat_fun %s) %s) %s" % (
+                cq(_sweep_tol(c)), P, swp, P, cn(n), Cm, cn(k), _cres(runs[k - 1])))
         return " && ".join("(%s)" % p for p in parts) if parts else None
     if c["kind"] == "sweep":
         parts = []
@@ -397,9 +656,9 @@ def _cert(M, ri, out, name):
         return
     if any(x < 0 for x in pi) or abs(sum(pi) - 1) > TOL1 or any(x < 0 for r in T for x in r) \
             or any(abs(sum(r) - 1) > TOL1 for r in T):
-        out.append(("stochastic", "%s: T rows / pi are not probability vectors: C=%s" % (name, M)))
+        out.append(("stochastic", "%s: T rows / pi are not probability vectors: C=%s" % (name, _enc(M))))
     if any(abs(pi[i] * T[i][j] - pi[j] * T[j][i]) > TOL1 for i in range(n) for j in range(n)):
-        out.append(("detailed-balance", "%s: pi_i T_ij != pi_j T_ji: C=%s" % (name, M)))
+        out.append(("detailed-balance", "%s: pi_i T_ij != pi_j T_ji: C=%s" % (name, _enc(M))))
     if not ri["warn"]:
         worst = max(abs(T[i][j] * crs[i] + T[j][i] * crs[j] - (M[i][j] + M[j][i])) / (crs[i] + crs[j])
                     for i in range(n) for j in range(n))
@@ -408,10 +667,164 @@ def _cert(M, ri, out, name):
                         % (name, float(worst), [[str(x) for x in r] for r in M])))
 
 
+def _dlogl(M, T0, T1):
+    """log L(T1) - log L(T0) on the counts M, T0 and T1 exact rationals (the doubles the code returned, or the exact
+    transpose estimate): sum of c_kl * log1p(T1_kl / T0_kl - 1), the ratio formed exactly and rounded once.  Returns
+    None if T0 has a zero where M has a count (log L(T0) = -inf), -inf if T1 has."""
+    d = 0.0
+    for i, row in enumerate(M):
+        for j, cij in enumerate(row):
+            if cij > 0:
+                if T0[i][j] <= 0:
+                    return None
+                if T1[i][j] <= 0:
+                    return -math.inf
+                q = T1[i][j] / T0[i][j] - 1
+                d += float(cij) * math.log1p(float(q))
+    return d
+
+
+def _mono_slack(c, M):
+    """cannot false-alarm: the doubles of one sweep are good to ~1e-15 relative (1e-9 for widely spread counts, see
+    _sweep_tol), which moves sum c_kl ln T_kl by that times sum(C); a wrong update moves it by O(1) * counts"""
+    N = float(sum(sum(row) for row in M))
+    return (1e-9 if _sweep_tol(c) == TOL_SWEEP else 1e-6) * max(1.0, N)
+
+
+def _mono(c, M, runs, out, name):
+    n = len(M)
+    sym = [[M[i][j] + M[j][i] for j in range(n)] for i in range(n)]
+    seq = [_rownorm(sym)] + [[[F(x) for x in row] for row in ri["T"]] for ri in runs]
+    slack = _mono_slack(c, M)
+    incs = []
+    for k in range(1, len(seq)):
+        d = _dlogl(M, seq[k - 1], seq[k])
+        if d is None:
+            out.append(("likelihood-monotone", "%s: T after %d sweep(s) is zero where C has a count: C=%s" % (name, k - 1, c["C"])))
+            return None
+        incs.append(d)
+        if d < -slack:
+            out.append(("likelihood-monotone", "%s: log L drops by %.6g from max_iter=%d to max_iter=%d (slack %.3g): C=%s"
+                        % (name, -d, k - 1, k, slack, c["C"])))
+            return None
+    tot = _dlogl(M, seq[0], seq[-1])
+    if tot is None or tot < -slack:
+        out.append(("likelihood-vs-transpose", "%s: log L after %d sweeps is below that of the transpose estimate by %.6g: C=%s"
+                    % (name, len(runs), -(tot or 0.0), c["C"])))
+    # once a run has stopped without the warning, longer runs return the same model
+    for k in range(1, len(runs)):
+        if not runs[k - 1]["warn"] and (runs[k]["T"] != runs[k - 1]["T"] or runs[k]["warn"]):
+            out.append(("stop-rule", "%s: max_iter=%d stopped without warning but max_iter=%d returns a different model / warns: C=%s"
+                        % (name, k, k + 1, c["C"])))
+            break
+    return incs
+
+
+def _mono_incs(c, r, impl):
+    """increments of log L along the sweeps of one implementation (for tags); None if not available"""
+    runs = r.get(impl)
+    if not isinstance(runs, list) or any("T" not in ri for ri in runs):
+        return None
+    return _mono(c, _dec(c["C"]), runs, [], impl)
+
+
+TOL_SCALE_CONV = F(1, 10 ** 4)     # observed on the unchanged code: <= 5.5e-7 (strongly asymmetric pairs), seeded changes: >= 1e-2
+
+
+def _maxdiff(a, b):
+    """largest |difference| over T and pi of two results that both carry a model"""
+    xs = [x for row in a["T"] for x in row] + a["pi"]
+    ys = [x for row in b["T"] for x in row] + b["pi"]
+    if len(xs) != len(ys):
+        return F(1)
+    return max(abs(F(x) - F(y)) for x, y in zip(xs, ys))
+
+
+def _oracle_dtype(c, r, M, out):
+    what = "%s %s" % (c["dtype"], c["container"])
+    for name in ("ref_py", "ref_pyx", "ref_py_k", "mle_wide", "mle", "py", "py_k"):
+        if "err" in r[name]:
+            out.append(("terminates", "%s (%s) raised %s on strongly connected C=%s" % (name, what, r[name]["err"], c["C"])))
+    if "err" in r["pyx"] and r["pyx"]["err"] not in ("ValueError", "TypeError"):
+        out.append(("terminates", "pyx (%s) raised %s on strongly connected C=%s" % (what, r["pyx"]["err"], c["C"])))
+    if out:
+        return
+    huge = c["dtype"] in HUGE_DTYPES
+    for name in ("mle", "py"):
+        _cert(M, dict(r[name], warn=True) if huge else r[name], out, "%s (%s)" % (name, what))
+    _cert(M, dict(r["py_k"], warn=True), out, "py_k (%s)" % what)
+    for a, b, tol in (("mle", "ref_py", TOL_SWEEP), ("mle", "mle_wide", TOL_SWEEP), ("py", "ref_py", TOL_SWEEP),
+                      ("py_k", "ref_py_k", TOL_SWEEP), ("pyx", "ref_pyx", TOL_SWEEP)):
+        if "T" in r[a] and "T" in r[b]:
+            d = _maxdiff(r[a], r[b])
+            if d > tol:
+                out.append(("dtype-independent", "%s from %s counts differs by %.3g from %s (float64 / int64 counts): C=%s%s"
+                            % (a, what, float(d), b, c["C"], (", max_iter=%d" % c["k"]) if a == "py_k" else "")))
+    if not r["input_unchanged"]:
+        out.append(("input-unchanged", "builders.mle modified its %s argument" % what))
+
+
+def _oracle_scale(c, r, M, out):
+    allr = [(0, r["base"])] + [(e, r["scaled"][str(e)]) for e in c["exps"]]
+    for e, rr in allr:
+        for name in ("py_k", "pyx_k", "py", "pyx", "mle"):
+            if "err" in rr[name]:
+                out.append(("terminates", "%s raised %s on strongly connected 2^%d * C, C=%s" % (name, rr[name]["err"], e, c["C"])))
+    if out:
+        return
+    huge_out = []
+    for e, rr in allr:
+        Ms = _scaled(M, e)
+        for name in ("py", "pyx", "mle"):
+            if e in SCALE_HUGE:
+                _cert(Ms, dict(rr[name], warn=True), out, "%s on 2^%d * C" % (name, e))
+                tmp = []
+                _cert(Ms, rr[name], tmp, "%s on 2^%d * C" % (name, e))
+                huge_out += [("self-consistency-huge-counts", m) for k_, m in tmp if k_ == "self-consistency"]
+            else:
+                _cert(Ms, rr[name], out, "%s on 2^%d * C" % (name, e))
+        for name in ("py_k", "pyx_k"):
+            _cert(Ms, dict(rr[name], warn=True), out, "%s on 2^%d * C" % (name, e))
+    out += huge_out[:1]
+    b = r["base"]
+    for e, rr in allr[1:]:
+        for name in ("py_k", "pyx_k"):
+            if b[name]["warn"] and rr[name]["warn"]:          # both executed exactly k sweeps
+                d = _maxdiff(b[name], rr[name])
+                if d > _sweep_tol(c):
+                    out.append(("scale-invariant", "%s: after %d sweep(s) the model from 2^%d * C differs by %.3g from that of C=%s"
+                                % (name, c["k"], e, float(d), c["C"])))
+        for name in ("py", "pyx", "mle"):
+            if not b[name]["warn"] and not rr[name]["warn"] and e not in SCALE_HUGE:
+                d = _maxdiff(b[name], rr[name])
+                if d > TOL_SCALE_CONV:
+                    out.append(("scale-invariant", "%s: the converged model from 2^%d * C differs by %.3g from that of C=%s"
+                                % (name, e, float(d), c["C"])))
+
+
 def oracle(c, r):
     out = []
     M = _dec(c["C"])
     n = len(M)
+    if c["kind"] == "dtype":
+        _oracle_dtype(c, r, M, out)
+        return out
+    if c["kind"] == "scale":
+        _oracle_scale(c, r, M, out)
+        return out
+    if c["kind"] == "mono":
+        for impl in ("py", "pyx"):
+            runs = r[impl]
+            bad = [ri["err"] for ri in runs if "err" in ri]
+            if bad:
+                out.append(("terminates", "%s raised %s on strongly connected C=%s" % (impl, bad[0], c["C"])))
+                continue
+            for ri in runs:
+                _cert(M, dict(ri, warn=True), out, impl)
+                if out:
+                    return out
+            _mono(c, M, runs, out, impl)
+        return out
     if c["kind"] == "stop":
         for impl in ("py", "pyx"):
             ri = r[impl]
@@ -492,6 +905,13 @@ def nontrivial(c, r):
     n = len(M)
     if n < 3 or all(M[i][j] == M[j][i] for i in range(n) for j in range(n)):
         return False
+    if c["kind"] == "mono":
+        incs = _mono_incs(c, r, "py")
+        return incs is not None and sum(1 for d in incs if d > _mono_slack(c, M)) >= 2
+    if c["kind"] == "dtype":
+        return "T" in r.get("mle", {}) and bool(r.get("pair_sum_wraps"))
+    if c["kind"] == "scale":
+        return "base" in r and all("T" in rr["mle"] and "T" in rr["py_k"] for rr in [r["base"]] + list(r["scaled"].values()))
     ri = r.get("py", {})
     if c["kind"] == "stop":
         return "T" in ri and (ri.get("N") or 0) >= 2
@@ -512,6 +932,69 @@ def tags(c, r):
                 t.append("stop-%s-N%s" % (impl, "1-5" if ri["N"] <= 5 else "6-20" if ri["N"] <= 20 else "21-30"))
         if r["py"].get("N") is not None and r["pyx"].get("N") is not None:
             t.append("stop-py-pyx-same-count" if r["py"]["N"] == r["pyx"]["N"] else "stop-py-pyx-different-count")
+    elif c["kind"] == "dtype":
+        t.append("dtype-" + c["dtype"])
+        t.append("dtype-" + ("dense" if c["container"] == "ndarray" else "sparse"))
+        t.append("dtype-" + c["container"])
+        t.append("dtype-k%d" % c["k"])
+        if "mle" in r:
+            signed = c["dtype"] in ("int8", "int16", "int32")
+            if r["pair_sum_wraps"]:
+                t.append("dtype-pair-sum-exceeds-dtype")
+                if signed:
+                    t.append("dtype-signed-pair-sum-wraps")
+            if r["rowsum_exceeds_dtype"]:
+                t.append("dtype-row-sum-exceeds-dtype")
+            if r["wrapped_rowsum_nonpositive"]:
+                t.append("dtype-wrapped-symmetrised-row-sum-nonpositive")
+            t.append("dtype-pyx-" + ("accepts" if "T" in r["pyx"] else "rejects-" + str(r["pyx"].get("err"))))
+            if "T" in r["py_k"] and r["py_k"]["warn"] and "T" in r["ref_py_k"] and r["ref_py_k"]["warn"]:
+                t.append("dtype-k-sweeps-compared")
+            if "T" in r["mle"] and "T" in r["ref_py"]:
+                t.append("dtype-converged-compared")
+    elif c["kind"] == "scale":
+        t.append("scale-k%d" % c["k"])
+        t.append("scale-" + ("dense" if c["container"] == "ndarray" else "sparse"))
+        if "base" in r:
+            b = r["base"]
+            for e in c["exps"]:
+                rr = r["scaled"][str(e)]
+                for name in ("py_k", "pyx_k"):
+                    if "T" in b[name] and "T" in rr[name] and b[name]["warn"] and rr[name]["warn"]:
+                        t.append("scale-2^%d-%s-compared" % (e, name))
+                        if b[name]["T"] == rr[name]["T"] and b[name]["pi"] == rr[name]["pi"]:
+                            t.append("scale-%s-bit-identical" % name)
+                        else:
+                            t.append("scale-%s-not-bit-identical" % name)
+                for name in ("py", "pyx", "mle"):
+                    if "T" in b[name] and "T" in rr[name] and not b[name]["warn"] and not rr[name]["warn"] and e not in SCALE_HUGE:
+                        t.append("scale-2^%d-%s-converged-compared" % (e, name))
+                        d = float(_maxdiff(b[name], rr[name]))
+                        t.append("scale-converged-diff-" + ("0" if d == 0 else "<=1e-12" if d <= 1e-12 else "<=1e-9" if d <= 1e-9
+                                                            else "<=1e-7" if d <= 1e-7 else ">1e-7"))
+            mx = max(F(x) for row in c["C"] for x in row)
+            if mx * F(2) ** (-34) < F(1, 10 ** 8):
+                t.append("scale-pair-sums-below-1e-8")
+    elif c["kind"] == "mono":
+        t.append("mono-K%d" % c["K"])
+        t.append("mono-tol-0" if c.get("tol0") else "mono-tol-default")
+        for impl in ("py", "pyx"):
+            incs = _mono_incs(c, r, impl)
+            if incs is None:
+                t.append("mono-not-compared-%s" % impl)
+                continue
+            t.append("mono-compared-%s" % impl)
+            slack = _mono_slack(c, M)
+            strict = sum(1 for d in incs if d > slack)
+            t.append("mono-%s-strict-increases-%s" % (impl, "0" if strict == 0 else "1" if strict == 1 else "2+"))
+            if any(abs(d) <= slack for d in incs):
+                t.append("mono-%s-flat-step" % impl)
+            if any(-slack <= d < 0 for d in incs):
+                t.append("mono-%s-negative-within-slack" % impl)
+            if all(ri["warn"] for ri in r[impl]):
+                t.append("mono-%s-all-runs-exact-k-sweeps" % impl)
+            else:
+                t.append("mono-%s-stopped-within-K" % impl)
     elif c["kind"] == "sweep":
         t.append("sweep-k%d" % c["k"])
         for impl in ("py", "pyx"):
@@ -530,6 +1013,12 @@ def tags(c, r):
                 t.append("cert-converged-%s" % impl)
     if n >= 2 and any(sum(1 for j in range(n) if j != i and (M[i][j] > 0 or M[j][i] > 0)) == 1 and M[i][i] == 0 for i in range(n)):
         t.append("leaf-state")
+        t.append("leaf-state-" + c["kind"])
+        if c["shape"].startswith("leaf-"):
+            t.append(c["shape"] + ("-self-counts" if any(M[i][i] > 0 for i in range(n)) else "-no-self-counts"))
+            for impl in ("py", "pyx"):
+                if "T" in r.get(impl, {}):
+                    t.append("leaf-returned-model-" + impl)
     if n == 2 and M[0][0] == 0 and M[1][1] == 0:
         t.append("a-eq-0-branch")
     if any(M[i][i] > 0 for i in range(n)):
@@ -541,7 +1030,18 @@ def tags(c, r):
 
 ESSENTIAL_TAGS = ["sweep-k1", "sweep-k2", "sweep-k3", "sweep-compared-py", "sweep-compared-pyx", "guard-rejected",
                   "cert-dense", "cert-sparse", "cert-converged-mle", "cert-converged-pyx", "leaf-state", "a-eq-0-branch",
-                  "self-counts", "one-way-pair", "cert-float", "cert-int", "stop-compared-py", "stop-compared-pyx"]
+                  "self-counts", "one-way-pair", "cert-float", "cert-int", "stop-compared-py", "stop-compared-pyx",
+                  "mono-compared-py", "mono-compared-pyx", "mono-py-strict-increases-2+", "mono-pyx-strict-increases-2+",
+                  # round 3s
+                  "leaf-state-sweep", "leaf-state-cert", "leaf-state-mono", "leaf-chain-no-self-counts", "leaf-chain-self-counts",
+                  "leaf-star-no-self-counts", "leaf-star-self-counts", "leaf-leaf-block-no-self-counts", "leaf-leaf-block-self-counts",
+                  "leaf-returned-model-py", "leaf-returned-model-pyx",
+                  "dtype-int8", "dtype-int16", "dtype-int32", "dtype-uint8", "dtype-uint16", "dtype-float32", "dtype-dense",
+                  "dtype-sparse", "dtype-signed-pair-sum-wraps", "dtype-row-sum-exceeds-dtype",
+                  "dtype-wrapped-symmetrised-row-sum-nonpositive", "dtype-k-sweeps-compared", "dtype-converged-compared",
+                  "scale-2^-10-py_k-compared", "scale-2^-34-py_k-compared", "scale-2^-40-py_k-compared", "scale-2^20-py_k-compared",
+                  "scale-2^-20-pyx_k-compared", "scale-2^-40-pyx_k-compared", "scale-2^-40-mle-converged-compared",
+                  "scale-2^-34-py-converged-compared", "scale-2^-34-pyx-converged-compared", "scale-pair-sums-below-1e-8"]
 
 
 def search(rng, tier):
